@@ -54,6 +54,10 @@ func runC02(p *Prog, r *Report) {
 	if want("C02.9") {
 		ruleMergedIterator(p, r, "C02.9")
 	}
+	if want("C02.16") {
+		// the memdb iterator's direction flag (shared with C14.10)
+		ruleMemdbIterDirection(p, r, "C02.16")
+	}
 	if want("C02.15") {
 		// an iterator that lost its source to a read error must not present a stale candidate (D10)
 		ruleReadErrorsSurface(p, r, "C02.15")
